@@ -47,7 +47,7 @@ CHECKS = {
         technique="facade call state machine (Facade.tla) model-checked by TLC; every facade method x command set x subset "
                   "of optional keyword arguments executed with a recording device that fills the data-in buffer; judged by "
                   "Trace_Facade (exactly once, same buffers), Trace_Command (arguments and defaults in the CDB, opcode of "
-                  "the attached set) and Trace_Data (result = parse of what the device wrote); byte-identical device answers decoded under different arguments, repeated calls after the caller edited the result, other device types asking first for commands found by operation code; behaviours of Session.tla (one facade's lifetime: calls, kept command objects re-issued, edited results, ATA pass-through, re-attach after a type change, probes, a second facade, held errors, armed completions), exhaustive to 3 steps and by TLC -simulate to 30, replayed step by step on the real facade over both transports; behaviours of Changer.tla (a conformant SMC media changer: move / exchange / position / initialise / open-close / prevent / element status kept and re-issued, operator actions) replayed against a changer that decodes CDBs and builds element status by SMC-3; behaviours of Reservations.tla (persistent reservations of two initiators on one logical unit, block access under the reservation) replayed on two facades against a target written from SPC-4; behaviours of ModePages.tla (MODE SENSE / edit / MODE SELECT with current, saved, default and changeable pages, SWP and D_SENSE taking effect) replayed against a target that parses the parameter lists",
+                  "the attached set) and Trace_Data (result = parse of what the device wrote); byte-identical device answers decoded under different arguments, repeated calls after the caller edited the result, other device types asking first for commands found by operation code; behaviours of Session.tla (one facade's lifetime: calls, kept command objects re-issued, edited results, ATA pass-through, re-attach after a type change, probes, a second facade, held errors, armed completions), exhaustive to 3 steps and by TLC -simulate to 30, replayed step by step on the real facade over both transports; behaviours of Changer.tla (a conformant SMC media changer: move / exchange / position / initialise / open-close / prevent / element status kept and re-issued, operator actions) replayed against a changer that decodes CDBs and builds element status by SMC-3; behaviours of Reservations.tla (persistent reservations of two initiators on one logical unit, block access under the reservation) replayed on two facades against a target written from SPC-4; behaviours of ModePages.tla (MODE SENSE / edit / MODE SELECT with current, saved, default and changeable pages, SWP and D_SENSE taking effect) replayed against a target that parses the parameter lists; behaviours of SatDisk.tla (ATA PASS-THROUGH 12/16: 28/48-bit sector I/O, IDENTIFY, SET FEATURES, power modes, CHECK POWER MODE read from raw sense) replayed against a translation layer + ATA disk written from SAT-3",
         text="36 facade methods (4 PR IN service actions) on every set offering the command, every subset of optional "
              "keywords (sampled above 24/300), device-provided contents from the C04 generators.",
         note="modeselect6/10, persistentreserveout, extendedcopy4/5 are driven by C05. Argument names = constructor "
